@@ -1,5 +1,5 @@
 (* C20 — the printed par/seq plan. Statements only; proofs in PlanPrint.v. *)
-From Shred Require Import Base SrcParams Plan PlanObs PlanLemmas PlanInv PlanLoc PlanBuild PlanProps PlanPrint BatchProps OracleProps PrintOracle.
+From Shred Require Import PlanRec PlanRecProps Base SrcParams Plan PlanObs PlanLemmas PlanInv PlanLoc PlanBuild PlanProps PlanPrint BatchProps OracleProps PrintOracle.
 
 (* The text written by write_par_seq (print_builder walks the ID table and the name map) is
    the rendering of the EXECUTED layout — the boxed systems stage by stage, group by group,
@@ -47,3 +47,15 @@ Example C20_example :
   exists b, plan rs = Ok b /\
     print_builder b = render [[[ [120;95;121] ]; [ [117;110;110;97;109;101;100;95;49] ]]]%N.
 Proof. eexists. split; vm_compute; reflexivity. Qed.
+
+(* a builder that was used on after caught panics of rejected registrations ([plan_rec], props/C18.v): its text is
+   the text of the builder of the ACCEPTED registrations - same names at the same stage, group and position - except
+   that the number inside the placeholder of an unnamed system is renamed by a strictly increasing function (the ids
+   that the rejected calls took are skipped) *)
+Theorem C20_recovered_builder_prints_the_accepted_plan :
+  forall rs, regs_times_ok rs ->
+  exists b f, mono f /\ plan (accepted rs) = Ok b /\
+    print_builder b = render (map3 (display_with placeholder (b_names b)) (layout_ids b)) /\
+    print_builder (plan_rec rs) = render (map3 (display_with (fun id => placeholder (f id)) (b_names b)) (layout_ids b)).
+Proof. exact print_rec_is_print_of_accepted. Qed.
+Print Assumptions C20_recovered_builder_prints_the_accepted_plan.
